@@ -4,7 +4,7 @@ use core::any::TypeId;
 use core::mem::{size_of, MaybeUninit};
 use core::ptr::NonNull;
 use crate::AnyVec;
-use crate::any_value::{AnyValue, AnyValueSizeless, AnyValueTypeless, Unknown};
+use crate::any_value::{AnyValue, AnyValueMut, AnyValueSizeless, AnyValueSizelessMut, AnyValueTypeless, AnyValueTypelessMut, Unknown};
 use crate::traits::None;
 use super::ghost::*;
 use super::post;
@@ -19,10 +19,14 @@ pub const SINK_MOVE: usize = 2;
 pub const SINK_FORGET: usize = 3;
 pub const SINK_DOWNCAST: usize = 4;
 
-fn check_handle<V: AnyValue>(h: &V, esz: usize, index: usize, tid: TypeId) {
+fn check_handle<V: AnyValueMut>(h: &mut V, esz: usize, index: usize, tid: TypeId) {
     kani::assert(off(h.as_bytes_ptr()) == Some(base(0) + index * esz), "handle: addresses exactly the removed element");
     kani::assert(h.size() == esz, "handle: reports the element size");
     kani::assert(h.value_typeid() == tid, "handle: reports the element type");
+    // C13: a mutation through the removal handle (before it is consumed) hits that element and no other
+    kani::assert(off(h.as_bytes_mut_ptr() as *const u8) == Some(base(0) + index * esz), "handle: mutable access addresses exactly the removed element");
+    let bm = h.as_bytes_mut();
+    kani::assert(bm.len() == esz && off(bm.as_ptr()) == Some(base(0) + index * esz), "handle: the mutable byte view is exactly the removed element's bytes");
 }
 
 fn sink<V: AnyValue, T: 'static>(h: V, how: usize, out: *mut u8, esz: usize) {
@@ -58,24 +62,24 @@ fn remove_erased<T: 'static>(op: usize, how: usize, drop: bool) {
 
     // phase 1: the handle exists
     if op == OP_REMOVE {
-        let h = v.remove(index);
+        let mut h = v.remove(index);
         kani::assert(cur_len(0) == post::remove_len_during(len, index), "remove: len lowered to index while the handle lives");
         kani::assert(g().n_moves == 0 && g().total_destroyed == 0, "remove: creating the handle touches no element");
-        check_handle(&h, esz, index, tid);
+        check_handle(&mut h, esz, index, tid);
         sink::<_, T>(h, how, out, esz);
     } else if op == OP_SWAP_REMOVE {
-        let h = v.swap_remove(index);
+        let mut h = v.swap_remove(index);
         kani::assert(cur_len(0) == post::remove_len_during(len, index), "swap_remove: len lowered to index while the handle lives");
         kani::assert(g().n_moves == 0 && g().total_destroyed == 0, "swap_remove: creating the handle touches no element");
-        check_handle(&h, esz, index, tid);
+        check_handle(&mut h, esz, index, tid);
         sink::<_, T>(h, how, out, esz);
     } else {
         let h = v.pop();
         kani::assert(h.is_some(), "pop: Some on a non-empty vector");
-        let h = h.unwrap();
+        let mut h = h.unwrap();
         kani::assert(cur_len(0) == post::pop_len_during(len), "pop: len lowered while the handle lives");
         kani::assert(g().n_moves == 0 && g().total_destroyed == 0, "pop: creating the handle touches no element");
-        check_handle(&h, esz, index, tid);
+        check_handle(&mut h, esz, index, tid);
         sink::<_, T>(h, how, out, esz);
     }
 
